@@ -129,6 +129,9 @@ func GenSpec(t *rapid.T) *Spec {
 		s.RtBackup = uint16(rapid.IntRange(1, 3).Draw(t, "rtBackup"))
 		s.RtStragglers = uint16(rapid.IntRange(0, 1).Draw(t, "rtStragglers"))
 		s.RtRoundTimeout = int64(rapid.IntRange(2, 5).Draw(t, "rtRoundTimeout"))
+		s.RtMaxNodes = uint16(rapid.SampledFrom([]int{0, 0, 1, 1, 2}).Draw(t, "rtMaxNodes"))
+		s.RtMinPoolExtra = uint16(rapid.SampledFrom([]int{0, 0, 1, 2}).Draw(t, "rtMinPoolExtra"))
+		s.RtValidatorSet = rapid.IntRange(0, 3).Draw(t, "rtValidatorSet") == 0
 	}
 	for i := 0; i < s.NEntities; i++ {
 		var roles []int
@@ -145,6 +148,15 @@ func GenSpec(t *rapid.T) *Spec {
 		s.NodeRoles = append(s.NodeRoles, roles)
 	}
 	s.WithVault = rapid.IntRange(0, 2).Draw(t, "vault") == 0
+	if s.WithVault {
+		for i, n := 0, rapid.IntRange(0, 2).Draw(t, "genesisVaults"); i < n; i++ {
+			s.GenesisVaults = append(s.GenesisVaults, [3]uint64{
+				uint64(rapid.SampledFrom([]int{0, 3, 50, 100000}).Draw(t, "gvBalance")),
+				uint64(rapid.SampledFrom([]int{0, 10, 10, 1000}).Draw(t, "gvLimit")),
+				uint64(rapid.SampledFrom([]int{0, 2, 10, 10}).Draw(t, "gvInterval")),
+			})
+		}
+	}
 	nc := rapid.IntRange(0, 4).Draw(t, "ncross")
 	for i := 0; i < nc; i++ {
 		s.CrossDelegations = append(s.CrossDelegations, [3]uint64{
